@@ -607,6 +607,18 @@ func (vc *VC) bindLoopSpec(st *State, si *SpecInfo, fi *FuncInfo, pos token.Pos)
 	scope := fi.Pkg.Types.Scope().Innermost(pos)
 	for _, p := range ps {
 		var found types.Object
+		if p.Name() == "idx_" {
+			// the hidden index of the innermost enclosing range-over-slice loop
+			for o := range st.vars {
+				if o.Name() == "range$idx" && o.Pos() < pos && (found == nil || o.Pos() > found.Pos()) {
+					found = o
+				}
+			}
+			if found != nil {
+				set(p, st.vars[found])
+				continue
+			}
+		}
 		if scope != nil {
 			_, found = scope.LookupParent(p.Name(), pos)
 		}
